@@ -272,6 +272,8 @@ def base_specs():
         ("dcr_full", dict(cls="dcr", names=("list", [2]), desc=True, obsolete=True, aux=L2, must=("single", "d"), may=("list", ["n"]), **{"not": ("list", ["d", "d"])}, exts=[("X-Z", ("list", 2))])),
         ("dcr_not", dict(cls="dcr", **{"not": ("single", "n")}, desc=True)),
         # every order of extension forms: a list followed by something, three in a row
+        # extension names that contain the prefix again / every permitted character kind
+        ("oc_ext_names", dict(cls="oc", exts=[("X-MAX-x-LENGTH", ("single",)), ("x-X-", ("list", 1)), ("X-_a-X-b_", ("single",))])),
         ("oc_ext_list_single", dict(cls="oc", exts=[("X-A", ("list", 2)), ("X-B", ("single",))])),
         ("at_ext_list_list", dict(cls="at", syntax="plain", exts=[("X-A", ("list", 1)), ("X-B", ("list", 2))])),
         ("dcr_ext_three", dict(cls="dcr", desc=True, exts=[("X-A", ("single",)), ("X-B", ("list", 1)), ("X-C", ("single",))])),
